@@ -94,6 +94,20 @@ Theorem C09_header_chunking_total : forall maxf hp ip elen,
 Proof. exact hdr_chunks_total. Qed.
 Print Assumptions C09_header_chunking_total.
 
+(* after ANY script (valid or not) the size DATA is split to is at least 16384: an out-of-range
+   SETTINGS_MAX_FRAME_SIZE ends the session instead of being stored (fixes/C09-3), so the split loop
+   of relay.data() always terminates and no peer can make it spin *)
+Theorem C09_split_size_always_legal : forall ls x, (16384 <= f_maxf (sf (final ls)) x)%N.
+Proof. exact split_size_always_legal. Qed.
+Print Assumptions C09_split_size_always_legal.
+
+Example C09_illegal_max_frame_size_ends_the_session :
+  length (obs_of [mk Sv (FSettings [(5, 0)])%N; mk Cl (FData 1 false (bytes_n 5) None)]) = 0%nat
+  /\ length (obs_of [mk Sv (FSettings [(3, 7); (5, 16383)])%N]) = 0%nat
+  /\ length (obs_of [mk Sv (FSettings [(5, 16777216)])%N]) = 0%nat
+  /\ length (obs_of [mk Sv (FSettings [(5, 16777215); (5, 16384)])%N]) = 1%nat.
+Proof. vm_compute. repeat split; reflexivity. Qed.
+
 (* the DATA splitting loop terminates whenever the receiver's max frame size is positive *)
 Theorem C09_data_split_total : forall fuel maxf s es d,
   (0 < maxf)%N -> (length d < fuel)%nat -> split_data fuel maxf s es d <> None.
